@@ -57,12 +57,15 @@ func main() {
 		}
 		// the code under test prints progress/diagnostics to stdout; keep our own channel
 		realStdout := os.Stdout
+		realStderr := os.Stderr
 		if devnull, err := os.OpenFile(os.DevNull, os.O_WRONLY, 0); err == nil {
 			os.Stdout = devnull
+			os.Stderr = devnull // progress bars of the commands under test
 		}
 		defer props.CleanupScratch()
 		res := core.Execute(p, *driver, *seed, *tier, rp)
 		os.Stdout = realStdout
+		os.Stderr = realStderr
 		props.CleanupScratch()
 		if *out != "" {
 			if err := core.WriteResult(res, *out); err != nil {
